@@ -4874,7 +4874,7 @@ Proof.
     + intros n. rewrite Hv, Hlog, (benign_inval s l _ n Hl). apply Iinval.
 Qed.
 
-Lemma stabilizeEnd_spec s e s' : PInv s -> stabilizeEnd s e = Ok s' -> Inv s'.
+Lemma stabilizeEnd_spec s e s' : PInv s -> stabilizeEnd s e = Ok s' -> Inv s' /\ same_struct s s'.
 Proof.
   intros P H. unfold stabilizeEnd in H. apply rbind_ok in H as (s4 & H4 & [= <-]).
   set (s1 := emit (EvPassEnd (classify e)) s) in *.
@@ -4902,8 +4902,11 @@ Proof.
   { intros v. rewrite Er, Ed, elem_of_app. intros Hv.
     destruct (pq_vars s (p_pq s P) v ltac:(tauto)) as [k Hk]. exists k.
     destruct (ss_node _ _ (s2_struct _ _ S03) v) as (-> & _). exact Hk. }
+  assert (Sfin : soft2 s (s4 <| status := 0 |>)).
+  { eapply soft2_trans; [exact S03|]. eapply soft2_trans; [exact S34|]. apply soft2_book; try reflexivity; lia. }
+  split; [|apply Sfin].
   apply (PInv_soft2_Inv s _ P).
-  - eapply soft2_trans; [exact S03|]. eapply soft2_trans; [exact S34|]. apply soft2_book; try reflexivity; lia.
+  - exact Sfin.
   - reflexivity.
   - exact Hd4.
   - exact Hr4.
@@ -4953,3 +4956,485 @@ Section pass2.
   Qed.
 
 End pass2.
+
+Section pass3.
+  Context (Q : state -> Prop) (HQ : forall s s', same_struct s s' -> Q s -> Q s') (HB : bind_spec Q).
+
+  Lemma Inv_PInv_start s : Inv s -> PInv (emit EvPassStart (s <| status := 1 |>)).
+  Proof.
+    intros HI. set (s0 := s <| status := 1 |>).
+    apply (PInv_of_soft s0); [|apply soft_emit; exact I].
+    pose proof (Inv_TInv s HI) as T.
+    destruct HI as [Iids Ibinds Ikinds Iscopes Iscoping Ivalid Iedges Izero Inec Ipar Iheight Iheap
+                    Icount Iobs Iquiet Ishape Istamps Ilife].
+    destruct Ivalid as [V1 V2 V3 V4]. destruct Ilife as [L1 L2 L3].
+    destruct Iquiet as [q_anum0 q_invq0 q_status0 q_setDuring0 q_setRemoved0 q_handlers0 q_force0 q_hadj0 q_by0].
+    assert (SS : same_struct s s0) by (apply same_struct_nodes; reflexivity).
+    constructor.
+    - apply (TInv_struct [] noE s s0 SS); [reflexivity|exact Iheap|exact T].
+    - apply (ids_ok_ext s s0); auto; reflexivity.
+    - apply (binds_wf_ext s s0); auto; reflexivity.
+    - apply (kinds_ok_ext s s0); auto; reflexivity.
+    - exact Iscopes.
+    - apply (scoping_ok_ext s s0); auto; reflexivity.
+    - exact V1.
+    - exact V2.
+    - exact V3.
+    - split; try reflexivity; try assumption.
+      + repeat split; assumption.
+      + intros v. cbn. rewrite q_setDuring0, q_setRemoved0. intros [Hx|Hx]; inversion Hx.
+    - destruct Ishape. split; assumption.
+    - apply (stamps_ok_ext s s0); auto; reflexivity.
+    - exact L3.
+  Qed.
+
+  Lemma stabilize_spec p cancelled s s' e :
+    Inv s -> Q s -> plan_ok s p = true -> stabilize p cancelled s = Ok (s', e) ->
+    rejected_err e \/ (Inv s' /\ Q s').
+  Proof.
+    intros HI Hq Hp H. unfold stabilize in H.
+    rewrite (q_status s (inv_quiet s HI)) in H. simpl in H.
+    set (s1 := emit EvPassStart (s <| status := 1 |>)) in *.
+    pose proof (Inv_PInv_start s HI) as P1. fold s1 in P1.
+    assert (SS1 : same_struct s s1) by (apply same_struct_nodes; reflexivity).
+    assert (K1 : pass_ok Q p s1 s1).
+    { split; [exact P1|]. split; [apply (plan_ok_struct s s1 p SS1 Hp)|]. split; [reflexivity|apply (HQ s s1 SS1 Hq)]. }
+    apply rbind_ok in H as ([[[s2 e2] at2] always] & H2 & H).
+    assert (K2 : rejected_err e2 \/ pass_ok Q p s1 s2).
+    { revert H2. destruct (cancelled && _); intros H2.
+      - injection H2 as <- <- _ _. right. exact K1.
+      - apply (passLoop_spec Q HQ HB _ p s1 s1 [] s2 e2 at2 always K1 H2). }
+    apply rbind_ok in H as (s3 & H3 & H). apply rbind_ok in H as (s4 & H4 & H).
+    apply rbind_ok in H as (s5 & H5 & [= <- <-]).
+    destruct K2 as [Hrej|K2]; [left; exact Hrej|]. right.
+    pose proof (requeue_always_soft always s2 s3 H3) as S3.
+    assert (S4 : soft s3 s4).
+    { destruct e2 as [[| |n|n| | |]|]; try (injection H4 as <-; apply soft_refl).
+      apply rbind_ok in H4 as (s6 & H6 & [= <-]).
+      eapply soft_trans; [|eapply soft_trans; [apply (soft_heapAddIfNotPresent _ _ _ H6)|apply soft_errorHandlers]].
+      apply soft_upd; intros x; [repeat split|]. intros Hk (A & B & C). repeat split; cbn; try lia; apply B || apply C. }
+    destruct (pass_ok_soft Q HQ p s1 s2 s4 K2 (soft_trans _ _ _ S3 S4)) as (P4 & _ & _ & Q4).
+    destruct (stabilizeEnd_spec s4 e2 s5 P4 H5) as [I5 SS5]. split; [exact I5|apply (HQ s4 s5 SS5 Q4)].
+  Qed.
+End pass3.
+
+(** ** Stabilize, for every plan, and StabilizeCancelled *)
+Definition is_stabilize (o : op) : bool :=
+  match o with Stabilize _ | StabilizeCancelled => true | _ => false end.
+
+Lemma Inv_step_stabilize_gen (Q : state -> Prop) s o s' e :
+  (forall s s', same_struct s s' -> Q s -> Q s') -> bind_spec Q ->
+  Inv s -> Q s -> op_ok s o = true -> is_stabilize o = true -> step s o = Ok (s', e) ->
+  e <> Some ECycle -> e <> Some EHeightLimit -> Inv s' /\ Q s'.
+Proof.
+  intros HQ HB HI Hq Hok Hg Hstep He1 He2. destruct o; try discriminate; simpl in Hstep, Hok.
+  - destruct (stabilize_spec Q HQ HB p false s s' e HI Hq Hok Hstep) as [[->| ->]|R]; [congruence|congruence|exact R].
+  - destruct (stabilize_spec Q HQ HB [] true s s' e HI Hq eq_refl Hstep) as [[->| ->]|R]; [congruence|congruence|exact R].
+Qed.
+
+(** the bind-free fragment: no bind records, hence no lhs-change node to stabilize *)
+Definition bindfree (s : state) : Prop := binds s = ∅.
+
+Lemma bind_spec_bindfree : bind_spec bindfree.
+Proof.
+  intros fuel p s b s' e Hq P Hp Hk Hg _. exfalso.
+  pose proof (p_kinds s P b (has_inGraph s b Hg)) as K. rewrite Hk in K. destruct K as [_ [r Hr]].
+  unfold bindfree in Hq. rewrite Hq, lookup_empty in Hr. discriminate.
+Qed.
+
+Theorem Inv_step_stabilize_bindfree s o s' e :
+  Inv s -> binds s = ∅ -> op_ok s o = true -> is_stabilize o = true -> step s o = Ok (s', e) ->
+  e <> Some ECycle -> e <> Some EHeightLimit -> Inv s' /\ binds s' = ∅.
+Proof.
+  intros HI Hq. apply (Inv_step_stabilize_gen bindfree); auto.
+  - intros a b SS H. unfold bindfree. rewrite (ss_binds _ _ SS). exact H.
+  - apply bind_spec_bindfree.
+Qed.
+
+From stdpp Require Import sorting.
+Local Open Scope Z_scope.
+(** * The invariant implies the boolean well-formedness predicate of EngineWf *)
+Lemma forallb_elem {A} (f : A -> bool) l : forallb f l = true <-> forall x, x ∈ l -> f x = true.
+Proof.
+  rewrite forallb_forall. split; intros H x Hx; apply H; [apply elem_of_list_In|apply elem_of_list_In in Hx]; exact Hx.
+Qed.
+
+Lemma elem_of_allNodes s n : n ∈ allNodes s <-> has s n /\ (n < next s)%nat.
+Proof.
+  unfold allNodes. rewrite elem_of_list_filter, elem_of_seq. unfold has. split; [intros [? ?]|intros [? ?]]; split; auto; lia.
+Qed.
+
+Section wfb.
+  Context (s : state) (HI : Inv s).
+
+  Lemma wf_edges : edges_symmetric s = true.
+  Proof.
+    unfold edges_symmetric. apply forallb_elem. intros c _. apply andb_true_iff. split; apply forallb_elem.
+    - intros p _. apply Nat.eqb_eq. apply (inv_edges s HI).
+    - intros d _. apply Nat.eqb_eq. symmetry. apply (inv_edges s HI).
+  Qed.
+
+  Lemma wf_zero : unregistered_zeroed s = true.
+  Proof.
+    unfold unregistered_zeroed. apply forallb_elem. intros n _. cbn zeta.
+    destruct (inGraph (nd s n)) eqn:E; [reflexivity|]. simpl.
+    destruct (inv_zero s HI n E) as (-> & -> & -> & ->).
+    destruct (inv_heap s HI) as [Hi Hq].
+    destruct (inHeap s n) eqn:Em; [|reflexivity].
+    apply (inHeap_iff s n Hi) in Em. destruct (Hq n Em). congruence.
+  Qed.
+
+  Lemma wf_nec : registered_iff_necessary s = true.
+  Proof.
+    unfold registered_iff_necessary. apply forallb_elem. intros n _. rewrite (inv_nec s HI n).
+    destruct (isNecessary (nd s n)); reflexivity.
+  Qed.
+
+  Lemma wf_par : parents_are_declared s = true.
+  Proof.
+    unfold parents_are_declared. apply forallb_elem. intros n _. cbn zeta.
+    destruct (inGraph (nd s n)) eqn:E; [|reflexivity]. simpl.
+    rewrite (vo_reg s (inv_valid s HI) n E), (inv_par s HI n E). apply bool_decide_eq_true. reflexivity.
+  Qed.
+
+  Lemma wf_height : heights_ordered s = true.
+  Proof.
+    unfold heights_ordered. apply forallb_elem. intros n _. cbn zeta.
+    destruct (inGraph (nd s n)) eqn:E; [|reflexivity]. simpl.
+    destruct (inv_height s HI n E) as ((A1 & A2) & B & C).
+    rewrite !andb_true_iff. repeat split; try lia.
+    apply forallb_elem. intros p Hp. specialize (B p Hp). lia.
+  Qed.
+
+  Lemma wf_counts : counts_ok s = true.
+  Proof.
+    unfold counts_ok. destruct (inv_count s HI) as [C1 C2 C3]. rewrite !andb_true_iff. split; [split|].
+    - apply bool_decide_eq_true, C1.
+    - apply bool_decide_eq_true. unfold EngineWf.sortn.
+      apply (Sorted_unique Nat.le).
+      + apply Sorted_merge_sort. apply _.
+      + apply Sorted.StronglySorted_Sorted. unfold allNodes.
+        assert (G : forall a k, StronglySorted Nat.le (seq a k)).
+        { intros a k. revert a. induction k as [|k IH]; intros a; [constructor|]. simpl. constructor; [apply IH|].
+          apply List.Forall_forall. intros x Hx. apply in_seq in Hx. lia. }
+        assert (F : forall (P : nat -> Prop) `{forall x, Decision (P x)} l, StronglySorted Nat.le l -> StronglySorted Nat.le (filter P l)).
+        { intros P HP l Hl. induction Hl as [|a l Hl IH Ha]; [constructor|].
+          rewrite filter_cons. destruct (decide (P a)); [|exact IH]. constructor; [exact IH|].
+          apply List.Forall_forall. intros x Hx. apply elem_of_list_In, elem_of_list_filter in Hx as [_ Hx].
+          rewrite List.Forall_forall in Ha. apply Ha, elem_of_list_In, Hx. }
+        apply F, F, G.
+      + rewrite merge_sort_Permutation. apply NoDup_Permutation; [exact C1| |].
+        * apply stdpp.list.NoDup_filter, stdpp.list.NoDup_filter, NoDup_seq.
+        * intros n. rewrite elem_of_list_filter, elem_of_allNodes, C2. split; [|tauto].
+          intros Hn. split; [exact Hn|]. pose proof (has_inGraph s n Hn) as Hh.
+          split; [exact Hh|apply (io_lt s (inv_ids s HI)), Hh].
+    - apply Z.eqb_eq, C3.
+  Qed.
+
+  Lemma wf_trans : transients_empty s = true.
+  Proof.
+    unfold transients_empty. destruct (inv_quiet s HI) as [Q1 Q2 Q3 Q4 Q5 Q6 Q7 Q8 Q9].
+    rewrite !andb_true_iff. repeat split; try (apply Z.eqb_eq; assumption); try (apply bool_decide_eq_true; assumption).
+    - apply forallb_elem. intros n _. rewrite Q7, Q8. reflexivity.
+    - apply forallb_elem. intros q Hq. apply bool_decide_eq_true.
+      rewrite stdpp.list.Forall_forall in Q9. apply Q9, Hq.
+  Qed.
+
+  Lemma wf_obs : observers_ok s = true.
+  Proof.
+    unfold observers_ok. destruct (inv_obs s HI) as [O1 O2 O3]. apply andb_true_iff. split.
+    - apply forallb_elem. intros n _. apply andb_true_iff. split.
+      + apply forallb_elem. intros o Ho. apply bool_decide_eq_true, O1, Ho.
+      + apply bool_decide_eq_true, O2.
+    - apply forallb_elem. intros [o n] Hon. apply bool_decide_eq_true, O1.
+      apply elem_of_map_to_list in Hon. exact Hon.
+  Qed.
+
+  Lemma wf_binds : binds_ok s = true.
+  Proof.
+    unfold binds_ok. apply forallb_elem. intros [b r] Hbr. apply elem_of_map_to_list in Hbr.
+    destruct (inv_binds s HI b r Hbr) as [A1 A2 A3 A4 A5 A6 A7 A8 A9 A10 A11 A12 A13 A14].
+    rewrite !andb_true_iff. repeat split; try (apply bool_decide_eq_true; assumption).
+    - apply bool_decide_eq_true. rewrite A9. destruct (b_rhs r); reflexivity.
+    - apply forallb_elem. intros n Hn. apply bool_decide_eq_true. apply (A11 n Hn).
+  Qed.
+
+  Lemma wf_heap_inv_b w : hinv w -> heap_inv_b w = true.
+  Proof.
+    intros [I T]. unfold heap_inv_b.
+    assert (Hhin : forall n x, Heap.hin w !! n = Some x <-> n ∈ Heap.ids w /\ Heap.hinOf w n = x).
+    { intros n x. rewrite (inv_hin w I). split.
+      - intros [Hx Hb]. assert (Hn : n ∈ Heap.ids w) by (apply elem_ids; eauto).
+        split; [exact Hn|]. rewrite (hinOf_bucket w n _ I Hb). lia.
+      - intros [Hn <-]. split; [apply hinOf_nonneg; [split; assumption|exact Hn]|apply in_own_bucket; assumption]. }
+    rewrite !andb_true_iff. repeat split.
+    - apply bool_decide_eq_true, (inv_nodup w I).
+    - apply Z.eqb_eq, (inv_cnt w I).
+    - unfold Heap.sanity. apply andb_true_iff. split.
+      + destruct (Z.ltb_spec 0 (Heap.cnt w)) as [Hc|]; [|reflexivity].
+        destruct (inv_cursor w I Hc) as (C1 & _). apply andb_true_iff. split; [|apply Z.leb_le, C1].
+        apply negb_true_iff, bool_decide_eq_false, T, Hc.
+      + apply forallb_elem. intros [x b] Hxb. apply elem_of_lookup_imap in Hxb as (i & y & [= -> ->] & Hl).
+        apply forallb_elem. intros n Hn. apply Z.eqb_eq. apply (hinOf_bucket w n i I).
+        unfold Heap.bucket. rewrite Hl. exact Hn.
+    - apply forallb_elem. intros n Hn. apply negb_true_iff, Z.eqb_neq.
+      pose proof (hinOf_nonneg w n ltac:(split; assumption) Hn). unfold unset. lia.
+    - apply bool_decide_eq_true. apply NoDup_Permutation.
+      + apply NoDup_map_to_list.
+      + apply NoDup_fmap_2_strong; [|apply (inv_nodup w I)]. intros a b _ _ [= ->]. reflexivity.
+      + intros [n x]. rewrite elem_of_map_to_list, Hhin, elem_of_list_fmap. split.
+        * intros [Hn <-]. exists n. auto.
+        * intros (m & [= -> ->] & Hm). auto.
+    - destruct (Z.ltb_spec 0 (Heap.cnt w)) as [Hc|]; [|reflexivity].
+      destruct (inv_cursor w I Hc) as (C1 & C2 & C3). rewrite !andb_true_iff. repeat split; try lia.
+      apply forallb_elem. intros n Hn. pose proof (in_own_bucket w n I Hn) as Hb.
+      pose proof (hinOf_nonneg w n ltac:(split; assumption) Hn) as H0.
+      assert (Hne : Heap.bucket w (Z.to_nat (Heap.hinOf w n)) <> []) by (intros E; rewrite E in Hb; inversion Hb).
+      specialize (C2 _ Hne). apply andb_true_iff. split; lia.
+  Qed.
+
+  Lemma wf_queued : queued_ok s = true.
+  Proof.
+    unfold queued_ok. destruct (inv_heap s HI) as [Hi Hq]. apply andb_true_iff. split; [apply wf_heap_inv_b, Hi|].
+    apply forallb_elem. intros n Hn. destruct (Hq n Hn) as [-> ->]. simpl. apply Z.eqb_eq. reflexivity.
+  Qed.
+
+  Theorem Inv_wfb : wfb s = true.
+  Proof.
+    unfold wfb, codes.
+    rewrite wf_edges, wf_zero, wf_nec, wf_par, wf_height, wf_queued, wf_counts, wf_trans, wf_obs, wf_binds.
+    reflexivity.
+  Qed.
+End wfb.
+
+(** * All operations; clean histories *)
+Theorem Inv_step_cond s o s' e :
+  bind_spec (fun _ => True) ->
+  Inv s -> op_ok s o = true -> op_clean s o = true -> step s o = Ok (s', e) ->
+  e <> Some ECycle -> e <> Some EHeightLimit -> Inv s'.
+Proof.
+  intros HB HI Hok Hcl Hstep He1 He2.
+  destruct o; try (simpl in Hcl; discriminate).
+  - apply (Inv_step_new s _ s' e HI Hok Hcl eq_refl Hstep).
+  - apply (Inv_step_new s _ s' e HI Hok Hcl eq_refl Hstep).
+  - apply (Inv_step_new s _ s' e HI Hok Hcl eq_refl Hstep).
+  - apply (Inv_step_new s _ s' e HI Hok Hcl eq_refl Hstep).
+  - apply (Inv_step_new s _ s' e HI Hok Hcl eq_refl Hstep).
+  - apply (Inv_step_new s _ s' e HI Hok Hcl eq_refl Hstep).
+  - apply (Inv_step_new s _ s' e HI Hok Hcl eq_refl Hstep).
+  - apply (Inv_step_new s _ s' e HI Hok Hcl eq_refl Hstep).
+  - apply (Inv_step_observe s _ s' e HI Hok Hcl eq_refl Hstep He2).
+  - apply (Inv_step_unobserve s _ s' e HI Hok eq_refl Hstep).
+  - apply (Inv_step_setvar s _ s' e HI Hok eq_refl Hstep).
+  - apply (Inv_step_setvar s _ s' e HI Hok eq_refl Hstep).
+  - apply (Inv_step_addinput s _ s' e HI Hok Hcl eq_refl Hstep He1 He2).
+  - apply (Inv_step_removeinput s _ s' e HI Hok eq_refl Hstep).
+  - apply (Inv_step_stabilize_gen (fun _ => True) s _ s' e ltac:(auto) HB HI I Hok eq_refl Hstep He1 He2).
+  - apply (Inv_step_stabilize_gen (fun _ => True) s _ s' e ltac:(auto) HB HI I Hok eq_refl Hstep He1 He2).
+Qed.
+
+Lemma rejected_not e : rejected e = false -> e <> Some ECycle /\ e <> Some EHeightLimit.
+Proof. destruct e as [[]|]; simpl; try discriminate; intros _; split; discriminate. Qed.
+
+Theorem Inv_run_clean_from_cond s os s' :
+  bind_spec (fun _ => True) -> Inv s -> run_clean s os = Some s' -> Inv s'.
+Proof.
+  intros HB. revert s. induction os as [|o os IH]; intros s HI H; simpl in H; [injection H as <-; exact HI|].
+  destruct (op_ok s o && op_clean s o) eqn:Eo; [|discriminate]. apply andb_true_iff in Eo as [Hok Hcl].
+  destruct (step s o) as [[s1 e]| |] eqn:Es; try discriminate.
+  destruct (rejected e) eqn:Er; [discriminate|]. destruct (rejected_not e Er) as [He1 He2].
+  apply (IH s1); [|exact H]. apply (Inv_step_cond s o s1 e HB HI Hok Hcl Es He1 He2).
+Qed.
+
+Theorem Inv_run_clean_cond mh os s :
+  bind_spec (fun _ => True) -> (0 < mh)%nat -> run_clean (init mh) os = Some s -> Inv s.
+Proof. intros HB Hmh. apply Inv_run_clean_from_cond; [exact HB|apply Inv_init, Hmh]. Qed.
+
+(** * The bind-free fragment, over whole histories *)
+Lemma heapOp_binds s s' : only_heap s s' -> binds s' = binds s.
+Proof. apply oh_binds. Qed.
+
+Lemma heapAddIfNotPresent_binds s n s' : heapAddIfNotPresent s n = Ok s' -> binds s' = binds s.
+Proof. intros H. apply oh_binds, (only_heap_heapAddIfNotPresent s n s' H). Qed.
+
+Lemma setStale_binds s n s' : setStale s n = Ok s' -> binds s' = binds s.
+Proof.
+  intros H. apply setStale_inv in H as [[_ ->]|[_ H]]; [reflexivity|]. cbn zeta in H.
+  destruct H as [[_ ->]|[_ H]]; [reflexivity|]. apply heapAdd_inv in H as (w & _ & ->). reflexivity.
+Qed.
+
+Lemma varSet_binds s v x s' : varSet s v x = Ok s' -> binds s' = binds s.
+Proof.
+  unfold varSet. destruct (_ && _ && _); [intros [= <-]; reflexivity|].
+  destruct (status s =? 1); [intros [= <-]; reflexivity|].
+  destruct (isNecessary _); [|intros [= <-]; reflexivity]. intros H. apply setStale_binds in H. exact H.
+Qed.
+
+Lemma invalidateNode_binds fuel : forall s n s', invalidateNode fuel s n = Ok s' -> binds s' = binds s.
+Proof.
+  induction fuel as [|fuel IH]; intros s n s' H; [discriminate|]. simpl in H.
+  destruct (negb (valid (nd s n))); [injection H as <-; reflexivity|].
+  set (s1 := upd (emit (EvInval n) s) n _) in H.
+  apply rbind_ok in H as (s2 & H2 & H).
+  assert (B2 : binds s2 = binds s).
+  { destruct (isNecessary (nd s1 n)); [|injection H2 as <-; reflexivity].
+    apply rbind_ok in H2 as (s3 & H3 & [= <-]).
+    rewrite binds_upd. rewrite (tf_binds _ _ (proj1 (teardown_frame fuel) s1 n s3 H3)). reflexivity. }
+  apply rbind_ok in H as (s4 & H4 & H).
+  assert (B4 : binds s4 = binds s2).
+  { destruct (nkind (nd s2 n)); try (injection H4 as <-; reflexivity).
+    revert H4. apply (rfold_pres (fun st => binds st = binds s2)); [reflexivity|].
+    intros a st st1 _ Hst Ha. rewrite (IH st a st1 Ha). exact Hst. }
+  match type of H with (if ?c then _ else _) = _ => destruct c end.
+  - apply heapRemove_inv in H as (w & _ & ->). cbn. congruence.
+  - injection H as <-. cbn. congruence.
+Qed.
+
+Lemma propagateInvalidity_binds fuel : forall s s', propagateInvalidity fuel s = Ok s' -> binds s' = binds s.
+Proof.
+  induction fuel as [|fuel IH]; intros s s' H; [discriminate|]. simpl in H.
+  destruct (invq s) as [|n q]; [injection H as <-; reflexivity|].
+  apply rbind_ok in H as (s1 & H1 & H). rewrite (IH s1 s' H).
+  set (s0 := s <| invq := q |>) in *.
+  destruct (valid (nd s0 n)); [|injection H1 as <-; reflexivity].
+  destruct (shouldBeInvalidated s0 n).
+  - apply (invalidateNode_binds fuel s0 n s1 H1).
+  - apply (heapAddIfNotPresent_binds s0 n s1 H1).
+Qed.
+
+Lemma setHeight_binds s n h s' e : setHeight s n h = Ok (s', e) -> binds s' = binds s.
+Proof. intros H. apply (bf_binds _ _ (bn_frame_setHeight s n h s' e H)). Qed.
+
+Lemma ensure_binds s oP c p s' e : ensureHeightRequirement s oP c p = Ok (s', e) -> binds s' = binds s.
+Proof.
+  unfold ensureHeightRequirement. destruct (bool_decide (oP = c)); [intros [-> _]%fail_inv; reflexivity|].
+  destruct (_ >=? _); [|intros [-> _]%ok_inv; reflexivity].
+  intros H. apply ebind_inv in H as (s1 & e1 & H1 & Hrest). apply lift_inv in H1 as [H1 ->].
+  assert (B1 : binds s1 = binds s).
+  { apply adjAdd_inv in H1 as [[_ ->]|(_ & _ & q & _ & ->)]; reflexivity. }
+  destruct Hrest as [[_ H2]|(Hne & _)]; [|congruence]. rewrite (setHeight_binds _ _ _ _ _ H2). exact B1.
+Qed.
+
+Lemma efold_binds {A} (f : state -> A -> M) l s s' e :
+  (forall st a st' e', f st a = Ok (st', e') -> binds st' = binds st) ->
+  efold f l s = Ok (s', e) -> binds s' = binds s.
+Proof.
+  intros Hf. apply (efold_pres (fun st => binds st = binds s)); [reflexivity|].
+  intros a st st1 e1 _ Hst Ha. rewrite (Hf st a st1 e1 Ha). exact Hst.
+Qed.
+
+Lemma adjustLoop_binds fuel : forall s oP s' e, adjustLoop fuel s oP = Ok (s', e) -> binds s' = binds s.
+Proof.
+  induction fuel as [|fuel IH]; intros s oP s' e H; [discriminate|]. rewrite adjustLoop_S in H.
+  destruct (a_num (adj s) <=? 0); [apply ok_inv in H as [-> _]; reflexivity|].
+  apply rbind_ok in H as ([popped s1] & H1 & H). destruct popped as [p|]; [|discriminate].
+  assert (B1 : binds s1 = binds s).
+  { apply adjRemoveMin_inv in H1 as [[? _]|(n & x & b' & _ & _ & ->)]; [discriminate|reflexivity]. }
+  apply ebind_inv in H as (s2 & e2 & H2 & Hrest). apply lift_inv in H2 as [H2 ->].
+  assert (B2 : binds s2 = binds s1).
+  { destruct (inHeap s1 p); [apply heapFix_inv in H2 as (w & _ & ->); reflexivity|injection H2 as <-; reflexivity]. }
+  destruct Hrest as [[_ H]|(Hne & _)]; [|congruence].
+  apply ebind_inv in H as (s3 & e3 & H3 & Hrest).
+  assert (B3 : binds s3 = binds s2).
+  { revert H3. apply efold_binds. intros st a st' e'. apply ensure_binds. }
+  destruct Hrest as [[-> H]|(Hne & -> & ->)]; [|congruence].
+  apply ebind_inv in H as (s4 & e4 & H4 & Hrest).
+  assert (B4 : binds s4 = binds s3).
+  { destruct (nkind (nd s3 p)); try (apply ok_inv in H4 as [-> _]; reflexivity).
+    revert H4. apply efold_binds. intros st a st' e'. destruct (isNecessary (nd st a)); [apply ensure_binds|].
+    intros [-> _]%ok_inv. reflexivity. }
+  destruct Hrest as [[-> H]|(Hne & -> & ->)]; [|congruence].
+  rewrite (IH s4 oP s' e H). congruence.
+Qed.
+
+Lemma adjustHeights_binds fuel s c p s' e : adjustHeights fuel s c p = Ok (s', e) -> binds s' = binds s.
+Proof.
+  unfold adjustHeights. intros H. apply ebind_inv in H as (s1 & e1 & H1 & Hrest).
+  apply ensure_binds in H1. cbn in H1.
+  destruct Hrest as [[-> H]|(Hne & -> & ->)]; [|exact H1].
+  rewrite (adjustLoop_binds fuel s1 p s' e H). exact H1.
+Qed.
+
+Lemma addChild_binds fuel s c p s' e : addChild fuel s c p = Ok (s', e) -> binds s' = binds s.
+Proof.
+  unfold addChild, addChildWithoutAdjustingHeights. intros H.
+  apply ebind_inv in H as (s1 & e1 & H1 & Hrest).
+  assert (B1 : binds s1 = binds s).
+  { set (s0 := if valid (nd (link s c p) p) then link s c p else (link s c p) <| invq := invq (link s c p) ++ [c] |>) in *.
+    assert (B0 : binds s0 = binds s) by (unfold s0; destruct (valid _); reflexivity).
+    destruct (isNecessary (nd s p)); [apply ok_inv in H1 as [-> _]; exact B0|].
+    rewrite (bf_binds _ _ (proj1 (BN_frame fuel s0 p s1 e1 H1))). exact B0. }
+  destruct Hrest as [[-> H]|(Hne & -> & ->)]; [|exact B1].
+  apply ebind_inv in H as (s2 & e2 & H2 & Hrest).
+  assert (B2 : binds s2 = binds s1).
+  { destruct (_ >=? _); [apply (adjustHeights_binds _ _ _ _ _ _ H2)|apply ok_inv in H2 as [-> _]; reflexivity]. }
+  destruct Hrest as [[-> H]|(Hne & -> & ->)]; [|congruence].
+  apply ebind_inv in H as (s3 & e3 & H3 & Hrest). apply lift_inv in H3 as [H3 ->].
+  pose proof (propagateInvalidity_binds _ _ _ H3) as B3.
+  destruct Hrest as [[_ H]|(Hne & _)]; [|congruence].
+  destruct (_ || _); [apply lift_inv in H as [H _]; rewrite (heapAddIfNotPresent_binds _ _ _ H)|apply ok_inv in H as [-> _]]; congruence.
+Qed.
+
+Definition keeps_binds (o : op) : bool :=
+  match o with
+  | NewBind _ _ | NewBindMemo _ _ | PurgeMemo _ _ | ClearMemo _ | Stabilize _ | StabilizeCancelled | ParStabilize _ => false
+  | _ => true
+  end.
+
+Lemma step_binds s o s' e : keeps_binds o = true -> step s o = Ok (s', e) -> binds s' = binds s.
+Proof.
+  intros Hk H. destruct o; try discriminate; simpl in H.
+  1-7: apply ok_inv in H as [-> _]; reflexivity.
+  - unfold observe in H. destruct (isNecessary _); [apply ok_inv in H as [-> _]; reflexivity|].
+    apply ebind_inv in H as (s1 & e1 & H1 & Hrest).
+    pose proof (bf_binds _ _ (proj1 (BN_frame _ _ _ _ _ H1))) as B1. cbn in B1.
+    destruct Hrest as [[-> H]|(Hne & -> & ->)]; [|exact B1].
+    apply lift_inv in H as [H _]. rewrite (propagateInvalidity_binds _ _ _ H). exact B1.
+  - apply lift_inv in H as [H _]. unfold unobserve in H. destruct (obs s !! o); [|injection H as <-; reflexivity].
+    rewrite (tf_binds _ _ (proj2 (teardown_frame _) _ _ _ H)). reflexivity.
+  - apply lift_inv in H as [H _]. apply (varSet_binds _ _ _ _ H).
+  - apply lift_inv in H as [H _]. apply (varSet_binds _ _ _ _ H).
+  - unfold addInput in H. destruct (_ =? _); [apply ok_inv in H as [-> _]; reflexivity|].
+    apply ebind_inv in H as (s1 & e1 & H1 & Hrest). pose proof (addChild_binds _ _ _ _ _ _ H1) as B1. cbn in B1.
+    destruct Hrest as [[-> H]|(Hne & -> & ->)]; [|exact B1].
+    apply lift_inv in H as [H _]. rewrite (setStale_binds _ _ _ H). exact B1.
+  - apply lift_inv in H as [H _]. unfold removeInput in H. destruct (negb _); [injection H as <-; reflexivity|].
+    apply rbind_ok in H as (s1 & H1 & H). rewrite (tf_binds _ _ (proj2 (teardown_frame _) _ _ _ H)).
+    rewrite (setStale_binds _ _ _ H1). reflexivity.
+Qed.
+
+Definition op_nobind (o : op) : bool := match o with NewBind _ _ => false | _ => true end.
+
+Theorem Inv_run_clean_bindfree_from s os s' :
+  Inv s -> binds s = ∅ -> forallb op_nobind os = true -> run_clean s os = Some s' -> Inv s' /\ binds s' = ∅.
+Proof.
+  revert s. induction os as [|o os IH]; intros s HI Hb Hn H; simpl in H; [injection H as <-; auto|].
+  simpl in Hn. apply andb_true_iff in Hn as [Hno Hn].
+  destruct (op_ok s o && op_clean s o) eqn:Eo; [|discriminate]. apply andb_true_iff in Eo as [Hok Hcl].
+  destruct (step s o) as [[s1 e]| |] eqn:Es; try discriminate.
+  destruct (rejected e) eqn:Er; [discriminate|]. destruct (rejected_not e Er) as [He1 He2].
+  assert (R : Inv s1 /\ binds s1 = ∅).
+  { destruct (is_stabilize o) eqn:Est.
+    - apply (Inv_step_stabilize_bindfree s o s1 e HI Hb Hok Est Es He1 He2).
+    - assert (Hk : keeps_binds o = true) by (destruct o; try reflexivity; try discriminate; simpl in Hcl; discriminate).
+      split; [|rewrite (step_binds s o s1 e Hk Es); exact Hb].
+      destruct o; try discriminate; try (simpl in Hcl; discriminate).
+      + apply (Inv_step_new s _ s1 e HI Hok Hcl eq_refl Es).
+      + apply (Inv_step_new s _ s1 e HI Hok Hcl eq_refl Es).
+      + apply (Inv_step_new s _ s1 e HI Hok Hcl eq_refl Es).
+      + apply (Inv_step_new s _ s1 e HI Hok Hcl eq_refl Es).
+      + apply (Inv_step_new s _ s1 e HI Hok Hcl eq_refl Es).
+      + apply (Inv_step_new s _ s1 e HI Hok Hcl eq_refl Es).
+      + apply (Inv_step_new s _ s1 e HI Hok Hcl eq_refl Es).
+      + apply (Inv_step_observe s _ s1 e HI Hok Hcl eq_refl Es He2).
+      + apply (Inv_step_unobserve s _ s1 e HI Hok eq_refl Es).
+      + apply (Inv_step_setvar s _ s1 e HI Hok eq_refl Es).
+      + apply (Inv_step_setvar s _ s1 e HI Hok eq_refl Es).
+      + apply (Inv_step_addinput s _ s1 e HI Hok Hcl eq_refl Es He1 He2).
+      + apply (Inv_step_removeinput s _ s1 e HI Hok eq_refl Es). }
+  destruct R as [HI1 Hb1]. apply (IH s1 HI1 Hb1 Hn H).
+Qed.
+
+Theorem Inv_run_clean_bindfree mh os s :
+  (0 < mh)%nat -> forallb op_nobind os = true -> run_clean (init mh) os = Some s -> Inv s /\ binds s = ∅.
+Proof. intros Hmh. apply Inv_run_clean_bindfree_from; [apply Inv_init, Hmh|reflexivity]. Qed.
